@@ -63,7 +63,7 @@ fn base() -> P {
         actors: (1, 3),
         clients: (2, 5),
         ops: (2, 8),
-        caps: vec![Some(1), Some(2), Some(3), Some(4), Some(8), None],
+        caps: vec![Some(1), Some(2), Some(3), Some(4), Some(8), None, None, Some(300)],
         w_op: [30, 8, 22, 8, 4, 3, 3, 4, 4, 3, 3, 2, 2, 4],
         p_gate: 10,
         p_sleep: 40,
@@ -113,7 +113,7 @@ fn profile(name: &str) -> P {
             p.actors = (1, 2);
             p.clients = (3, 8);
             p.ops = (2, 6);
-            p.caps = vec![Some(1), Some(1), Some(2), Some(3), Some(5), Some(8), Some(32), None];
+            p.caps = vec![Some(1), Some(1), Some(2), Some(3), Some(5), Some(8), Some(32), None, Some(300)];
             p.w_op = [60, 10, 0, 0, 0, 5, 2, 3, 5, 2, 2, 2, 1, 6];
             p.p_tell_only = 100;
             p.p_self_tell = 8;
@@ -653,9 +653,11 @@ fn finish(g: &mut G, profile_name: &str, seed: u64, mut actors: Vec<ActorSpec>, 
         }
         let nops = g.r.range(p.ops.0, p.ops.1);
         for _ in 0..nops {
-            let pre = match g.r.below(5) {
-                0 | 1 => Pre::None,
-                2 => Pre::Yield,
+            let pre = match g.r.below(50) {
+                0..=19 => Pre::None,
+                20..=29 => Pre::Yield,
+                // the caller has used up (nearly) all of its cooperative budget when it makes the call
+                48 | 49 => Pre::Coop(*g.r.pick(&[128u64, 128, 128, 127, 129, 64])),
                 _ => Pre::Sleep(2 * g.r.range(1, 4)),
             };
             let strong: Vec<usize> = (0..nslots).filter(|s| matches!(st[*s], SS::S(_))).collect();
@@ -699,7 +701,8 @@ fn finish(g: &mut G, profile_name: &str, seed: u64, mut actors: Vec<ActorSpec>, 
                     }
                     let mut reps = 1;
                     if p.burst > 0 && g.r.chance(10) {
-                        reps = *g.r.pick(&[p.burst, p.burst, 40, 70]);
+                        // also backlogs deeper than tokio's cooperative budget (128) in mailboxes that can hold them
+                        reps = *g.r.pick(&[p.burst, p.burst, p.burst, 40, 40, 70, 70, 150, 260]);
                     }
                     if reps > 1 {
                         // a burst of identical-shape tells (distinct uids) to exercise queued-message priority
@@ -1043,9 +1046,60 @@ fn generate_overlap(seed: u64) -> Scenario {
     }
 }
 
+/// A long ring: a client asks actor 0, whose handler asks actor 1, ... and actor N-1 asks actor 0 (or some earlier member).
+/// Detection must not depend on how long the would-be cycle is.
+fn generate_ring(seed: u64) -> Scenario {
+    let mut r = Rng::new(seed ^ 0x21A6);
+    let n = *r.pick(&[6usize, 9, 13, 17, 18, 19, 24, 33, 48]);
+    let back = if r.chance(70) { 0 } else { r.below(n as u64 / 2) as usize };
+    // nested bodies: message to actor i carries "ask actor i+1 with the rest"
+    let mut uid = n as u64 + 10;
+    let kinds = |r: &mut Rng| match r.below(6) {
+        0 => (SendKind::AskTo(1 << 30), MTy::U),
+        1 => (SendKind::Ask, MTy::S),
+        2 => (SendKind::AskJoin, MTy::J),
+        _ => (SendKind::Ask, MTy::U),
+    };
+    let (ck, cm) = kinds(&mut r);
+    let mut body = Body { uid: 1, flags: 0, steps: vec![Step::Peer { target: back, kind: ck, mty: cm, body: Body::plain(2) }] };
+    for i in (0..n - 1).rev() {
+        uid += 1;
+        let (k, m) = kinds(&mut r);
+        let mut steps = vec![];
+        if r.chance(30) {
+            steps.push(Step::Sleep(2));
+        }
+        steps.push(Step::Peer { target: i + 1, kind: k, mty: m, body });
+        body = Body { uid, flags: 0, steps };
+    }
+    let actors = (0..n)
+        .map(|_| ActorSpec { cap: Some(4), start: HookScript::default(), run: vec![], stop: HookScript::default(), run_err_when_handled: None, in_peers: true })
+        .collect();
+    let clients = vec![ClientSpec {
+        init: vec![Some(0), None, None, None],
+        ops: vec![ClientOp { pre: Pre::None, op: Op::Send { slot: 0, kind: if r.chance(50) { SendKind::Ask } else { SendKind::Tell }, mty: MTy::U, body } }],
+        drop_at_end: true,
+    }];
+    Scenario {
+        seed,
+        pert: 0,
+        profile: "deadlock".to_string(),
+        actors,
+        clients,
+        ngates: 1,
+        teardown: (0..n).map(|_| Teardown::Stop).collect(),
+        sample_until: 21,
+        default_cap: 32,
+        fixed_timing: false,
+    }
+}
+
 fn generate_deadlock(seed: u64) -> Scenario {
     if seed % 10 == 3 {
         return generate_overlap(seed);
+    }
+    if seed % 64 == 7 {
+        return generate_ring(seed);
     }
     let mut r = Rng::new(seed ^ 0xDEAD10C);
     let n = r.range(2, 5) as usize;
@@ -1264,6 +1318,7 @@ pub fn perturb(sc: &mut Scenario, pert: u64) {
                             Pre::Sleep(x + 2 * r.range(0, 2))
                         }
                     }
+                    Pre::Coop(n) => Pre::Coop(n),
                 };
             }
         }
